@@ -196,6 +196,8 @@ class _SNum:
         return '%s(%s)' % (type(self).__name__, tm.show(self._term))
 
     def _bin(self, o, f, swap=False):
+        if hasattr(o, 'storage'):      # a tensor operand: let Tensor.__r<op>__ handle it
+            return NotImplemented
         try:
             b = lift(o)
         except TypeError:
